@@ -1,9 +1,212 @@
-"""Replay of solver models on the real (natively compiled) code."""
+"""Replay of solver models on the natively compiled real code.
+
+The same harness function that was executed symbolically is compiled with `go test -tags
+verif -overlay ...` (the harness files, the zzverif runtime and a generated test enter /repo's
+packages as overlay files; /repo is not modified) and run with the nondeterministic values
+taken from the solver's model. A violation counts as reproduced when the native run fails
+the same assertion (or panics)."""
+import json
+import os
+import re
+import shutil
+import subprocess
+import tempfile
+
+from . import driver
+
+PKGINFO = {
+    # harness name prefix -> (module key, package dir relative to the module, go package name)
+    "VerifHarness_C19_": ("types", "math", "math"),
+    "VerifHarness_C15_": ("data", ".", "data"),
+    "VerifHarness_C14_BasketDenom": ("ecocredit", "basket", "basket"),
+    "VerifHarness_C14_": ("ecocredit", "base", "base"),
+    "VerifHarness_C07_": ("ecocredit", "marketplace/keeper", "keeper"),
+    "VerifHarness_C18_": ("ecocredit", "marketplace/keeper", "keeper"),
+}
+
+ZZIMPORT = {"types": "github.com/regen-network/regen-ledger/types/v2/zzverif",
+            "data": "github.com/regen-network/regen-ledger/x/data/v3/zzverif",
+            "ecocredit": "github.com/regen-network/regen-ledger/x/ecocredit/v3/zzverif",
+            "intertx": "github.com/regen-network/regen-ledger/x/intertx/zzverif"}
+
+
+def locate(harness):
+    for pre, info in PKGINFO.items():
+        if harness.startswith(pre):
+            return info
+    return None
+
+
+def concretize(cex):
+    """Solver model -> label values usable natively. Opaque decimal strings are rebuilt
+    from the model's dec_coeff/dec_exp/dec_neg (or dec_mag) of the atom."""
+    model = dict(cex.get("model") or {})
+    full = cex.get("full_model") or {}
+    for label, val in list(model.items()):
+        if not isinstance(val, str) or not val.startswith("Str!val!"):
+            continue
+        var = "nd_" + re.sub(r"[^A-Za-z0-9_.!$-]", "_", label)
+        coeff = full.get("(dec_coeff %s)" % var)
+        exp = full.get("(dec_exp %s)" % var)
+        neg = full.get("(dec_neg %s)" % var)
+        mag = full.get("(dec_mag %s)" % var)
+        ok = full.get("(dec_ok %s)" % var)
+        if ok == "true" and exp is not None and (coeff is not None or mag is not None):
+            e = int(driver_int(exp))
+            if coeff is not None:
+                c = int(driver_int(coeff))
+            else:
+                from fractions import Fraction
+                c = int(parse_real(mag) / (Fraction(10) ** e))
+            s = ("-" if neg == "true" else "") + plain_decimal(c, e)
+            model[label] = json.dumps(s)
+        elif ok == "false":
+            model[label] = json.dumps("not-a-decimal")
+    return model
+
+
+def driver_int(s):
+    s = s.strip()
+    m = re.match(r"^\(-\s*(\d+)\)$", s)
+    if m:
+        return -int(m.group(1))
+    return int(float(s)) if "." in s else int(s)
+
+
+def parse_real(s):
+    from fractions import Fraction
+    s = s.strip()
+    m = re.match(r"^\(-\s*(.*)\)$", s)
+    if m:
+        return -parse_real(m.group(1))
+    m = re.match(r"^\(/\s*(\S+)\s+(\S+)\)$", s)
+    if m:
+        return parse_real(m.group(1)) / parse_real(m.group(2))
+    return Fraction(s)
+
+
+def plain_decimal(coeff, exp):
+    if exp >= 0:
+        return str(coeff * 10 ** exp)
+    digits = str(coeff).rjust(-exp + 1, "0")
+    return digits[:exp] + "." + digits[exp:]
 
 
 def try_replay(pid, spec, harness, cex_path, tier):
-    return "not-attempted"
+    info = locate(harness)
+    if info is None:
+        return "not-replayable (handler-level harness: model reported, native replay not built)"
+    with open(cex_path) as fh:
+        cex = json.load(fh)
+    ok, out = run_native(info, harness, cex, tier)
+    cex["replay_output"] = out[-3000:]
+    m = re.search(r"REPLAY assume_ok=(\w+) failed=\[(.*?)\] panic=(.*)", out)
+    if not m:
+        status = "replay-error"
+    else:
+        failed = m.group(2)
+        if cex["obligation"] in failed or (m.group(3).strip() not in ("<nil>", "")):
+            status = "reproduced"
+        elif m.group(1) == "false":
+            status = "not-reproduced"
+        else:
+            status = "not-reproduced"
+    cex["replay_status"] = status
+    with open(cex_path, "w") as fh:
+        json.dump(cex, fh, indent=1)
+    return status
+
+
+def run_native(info, harness, cex, tier):
+    modkey, pkgdir, pkgname = info
+    mod = driver.MODULES[modkey]
+    moddir = os.path.join(driver.REPO, mod["dir"])
+    tmp = tempfile.mkdtemp(prefix="verif-replay-")
+    try:
+        overlay = {}
+        hsrc = os.path.join(driver.VERIF, "harness", mod["harness"], pkgdir)
+        names = []
+        for f in sorted(os.listdir(hsrc)):
+            if f.endswith(".go"):
+                overlay[os.path.join(moddir, pkgdir, f)] = os.path.join(hsrc, f)
+                names += re.findall(r"^func (VerifHarness_\w+)\(\)", open(os.path.join(hsrc, f)).read(), re.M)
+        # other harness packages of the module this one imports (zzinv)
+        zsrc = os.path.join(driver.VERIF, "harness", "zzverif")
+        for f in sorted(os.listdir(zsrc)):
+            overlay[os.path.join(driver.REPO, mod["zz"], f)] = os.path.join(zsrc, f)
+        inv = os.path.join(driver.VERIF, "harness", mod["harness"], "zzinv")
+        if os.path.isdir(inv):
+            for f in sorted(os.listdir(inv)):
+                overlay[os.path.join(moddir, "zzinv", f)] = os.path.join(inv, f)
+        test = os.path.join(tmp, "zz_verif_replay_test.go")
+        table = "\n".join('\t\t"%s": %s,' % (n, n) for n in names)
+        with open(test, "w") as fh:
+            fh.write('''//go:build verif
+
+package %s
+
+import (
+	"encoding/json"
+	"fmt"
+	"os"
+	"testing"
+
+	zz "%s"
+)
+
+func TestVerifReplay(t *testing.T) {
+	data, err := os.ReadFile(os.Getenv("VERIF_CEX"))
+	if err != nil {
+		t.Fatal(err)
+	}
+	var c struct {
+		Harness string            `json:"harness"`
+		Model   map[string]string `json:"native_model"`
+		Bounds  map[string]int    `json:"bounds"`
+	}
+	if err := json.Unmarshal(data, &c); err != nil {
+		t.Fatal(err)
+	}
+	zz.SetCex(c.Model, c.Bounds)
+	table := map[string]func(){
+%s
+	}
+	h, ok := table[c.Harness]
+	if !ok {
+		t.Fatalf("unknown harness %%s", c.Harness)
+	}
+	assumeOK, failed, pan := zz.Run(h)
+	fmt.Printf("REPLAY assume_ok=%%v failed=%%q panic=%%v\\n", assumeOK, failed, pan)
+}
+''' % (pkgname, ZZIMPORT[modkey], table))
+        overlay[os.path.join(moddir, pkgdir, "zz_verif_replay_test.go")] = test
+        ofile = os.path.join(tmp, "overlay.json")
+        with open(ofile, "w") as fh:
+            json.dump({"Replace": overlay}, fh)
+        cexn = dict(cex)
+        cexn["native_model"] = concretize(cex)
+        cexn["bounds"] = cex.get("bounds") or {}
+        cfile = os.path.join(tmp, "cex.json")
+        with open(cfile, "w") as fh:
+            json.dump(cexn, fh)
+        env = dict(driver.GOENV, VERIF_CEX=cfile, GOCACHE=os.path.join(tmp, "gocache") if os.environ.get("VERIF_COLD_CACHE") else driver.GOENV.get("GOCACHE", os.path.expanduser("~/.cache/go-build")))
+        rel = "./" + pkgdir if pkgdir != "." else "."
+        r = subprocess.run(["go", "test", "-tags", "verif", "-vet=off", "-count=1", "-overlay", ofile, "-run", "TestVerifReplay", "-v", rel],
+                           cwd=moddir, env=env, capture_output=True, text=True, timeout=900)
+        return r.returncode == 0, r.stdout + r.stderr
+    except subprocess.TimeoutExpired:
+        return False, "replay timed out"
+    finally:
+        shutil.rmtree(tmp, ignore_errors=True)
 
 
 def replay_file(path):
-    return False, "replay not available yet"
+    with open(path) as fh:
+        cex = json.load(fh)
+    info = locate(cex["harness"])
+    if info is None:
+        return False, "handler-level counterexample: native replay is not available; model:\n" + json.dumps(cex.get("model"), indent=1)
+    ok, out = run_native(info, cex["harness"], cex, "quick")
+    m = re.search(r"REPLAY assume_ok=(\w+) failed=\[(.*?)\] panic=(.*)", out)
+    reproduced = bool(m) and (cex["obligation"] in m.group(2) or m.group(3).strip() not in ("<nil>", ""))
+    return reproduced, out[-3000:]
